@@ -642,3 +642,9 @@ pub fn program(c: &C, root_ty: &CT, cfg: &Cfg) -> (String, Vec<(Var, String)>) {
     s.push_str("\nend\n");
     (s, pr.binder_names)
 }
+
+/// Print only the body of a computation (no declarations, no root ascription).
+pub fn body_only(c: &C, cfg: &Cfg) -> String {
+    let mut pr = Printer::new(cfg.clone());
+    pr.comp(c, Ctx::Tail)
+}
